@@ -1283,7 +1283,20 @@ func (x *Exec) branch(s *State, cond Value) (tS, fS *State) {
 				// only for values that are integers for certain: lengths and counters (between two literals a
 				// floating-point amount has room that an integer has not)
 				if kv, exact := constant.Int64Val(k.V); exact && x.nonNeg(s, t.Args[1-i]) {
-					cur = x.againstLiterals(s, t.Args[1-i], kv, t.Args[i].Key() < t.Args[1-i].Key())
+					lit := x.againstLiterals(s, t.Args[1-i], kv, t.Args[i].Key() < t.Args[1-i].Key())
+					var tm0 uint16
+					for di, d := range at.Domain {
+						for _, y := range at.True {
+							if d == y {
+								tm0 |= 1 << uint(di)
+							}
+						}
+					}
+					// used only where it settles the test (one side impossible): a test that stays open keeps the
+					// full domain, as before, so that states met again at a loop head still look alike
+					if lit&tm0 == 0 || lit&^tm0 == 0 {
+						cur = lit
+					}
 				}
 			}
 		}
